@@ -225,7 +225,33 @@ def _hash_assigned(col, rule="C06.R4"):
                 "the __cinit__ chain of the class assigns _hash = hash((...)) on every path", "")
 
 
+def _hash_only_from_cinit(col, rule="C06.R4"):
+    """the hash of a reference is a function of its identifying fields, computed by __cinit__ in this process: no other method
+    (a __setstate__ carrying a pickled hash over, a lazily recomputed or cached one) stores _hash"""
+    rm = model(col)
+    import ast as _ast
+    others = []
+    for c in rm.classes:
+        for name, fn in c.methods.items():
+            if name == "__cinit__":
+                continue
+            for n in _ast.walk(fn):
+                if isinstance(n, (_ast.Assign, _ast.AugAssign, _ast.AnnAssign)):
+                    tgts = n.targets if isinstance(n, _ast.Assign) else [n.target]
+                    for t in tgts:
+                        for x in _ast.walk(t):
+                            if isinstance(x, _ast.Attribute) and x.attr == "_hash" and isinstance(x.ctx, _ast.Store):
+                                others.append(f"{c.name}.{name}")
+                if isinstance(n, _ast.Call) and getattr(n.func, "attr", getattr(n.func, "id", "")) in ("setattr", "__setattr__") \
+                        and any(isinstance(a, _ast.Constant) and a.value == "_hash" for a in n.args):
+                    others.append(f"{c.name}.{name}")
+    col.add(rule, "BaseRef-subclasses#_hash-stored-only-by-__cinit__", not others, "xdeps/refs.py",
+            "only the __cinit__ chain stores _hash (string hashes differ between processes: a hash restored from a pickle, or "
+            "kept from another object, makes equal paths hash differently)", str(sorted(set(others))))
+
+
 def check(col: Collector):
+    _hash_only_from_cinit(col)
     _same_data(col)
     _injective(col)
     _eq_hash_pairing(col)
